@@ -234,9 +234,26 @@ pub fn catch<T>(f: impl FnOnce() -> T) -> Result<T, String> {
 pub fn quiet_panics() {
     std::panic::set_hook(Box::new(|info| {
         let loc = info.location().map(|l| format!("{}:{}", l.file(), l.line())).unwrap_or_default();
+        let msg = if let Some(s) = info.payload().downcast_ref::<&str>() {
+            s.to_string()
+        } else if let Some(s) = info.payload().downcast_ref::<String>() {
+            s.clone()
+        } else {
+            "panic".to_string()
+        };
+        // panics of the harness itself (not of the code under test) are kept for the exit path
+        if loc.contains("harness/src") || loc.starts_with("src/") || msg.contains("verif-machinery") {
+            if let Ok(mut g) = LAST_HARNESS_PANIC.lock() {
+                if g.is_empty() {
+                    *g = format!("{} @ {}", msg, loc);
+                }
+            }
+        }
         LAST_PANIC_LOC.with(|c| *c.borrow_mut() = loc);
     }));
 }
+
+pub static LAST_HARNESS_PANIC: Mutex<String> = Mutex::new(String::new());
 
 thread_local! {
     pub static LAST_PANIC_LOC: std::cell::RefCell<String> = const { std::cell::RefCell::new(String::new()) };
